@@ -94,7 +94,7 @@ def run_mutants(module, prop, base_ctx, only_quick=False, workers=16, repo=None)
     jobs = [(module.__name__, prop, i, repo, base_keys) for i in idxs]
     if not jobs:
         return []
-    if len(jobs) <= 2 or workers <= 1:
+    if len(jobs) <= 60 or workers <= 1:     # process start-up dominates in this sandbox (0.15 s per variant serial)
         return [run_one(j) for j in jobs]
     with ProcessPoolExecutor(max_workers=min(workers, len(jobs))) as ex:
         return list(ex.map(run_one, jobs))
